@@ -576,7 +576,7 @@ func c18InProcess(ctx *Ctx) {
 			if r.Crash != "" {
 				msg = "fatal: " + lastLine(r.Crash)
 			}
-			if sc.Axes["leaf"] == "self/two-anyOf-item-edges" && sc.Axes["pos"] == "recursion" && ctx.Run.Listed("TWO_RECURSIVE_ANYOF_ITEM_EDGES_NO_TERMINATION") {
+			if c10NonTerminating(sc.Axes["leaf"]) && sc.Axes["pos"] == "recursion" && ctx.Run.Listed("TWO_RECURSIVE_ANYOF_ITEM_EDGES_NO_TERMINATION") {
 				ctx.Run.Known("TWO_RECURSIVE_ANYOF_ITEM_EDGES_NO_TERMINATION", sc.ID+": "+msg, replay)
 				outcomes["known"]++
 				return
